@@ -889,14 +889,6 @@ def signature(step, problem):
 
 
 # ====================================================================================================== model encoding
-def raw_noncanonical(s):
-    """the model assumes the setter's invariant: stored names are None or hold a non-None entry"""
-    if s["k"] == "leaf":
-        return False
-    n = s.get("names")
-    return False
-
-
 def modelable(s):
     """plain TensorDict trees: tensors, nested TensorDicts, NonTensorData entries"""
     k = s["k"]
